@@ -90,6 +90,7 @@ fn replay_file(path: &str) -> Result<i32, String> {
         "explorer" => {
             let label = v["harness"].as_str().ok_or("no harness")?;
             let h = checks::e1_checks::harness_by_label(label)
+                .or_else(|| checks::c20::harness_by_label(label))
                 .ok_or_else(|| format!("unknown harness {}", label))?;
             let choices: Vec<u16> = v["choices"]
                 .as_array()
